@@ -24,6 +24,7 @@ Case grammar sent to `drv_datalog` (kind G):
 
     CASE <id> G <writePeriod> <tail> <aliveCheck 0|1>
     DS <A|-|t,t,..> <interval|0> <raw|json|csv|ql>
+    (+ the HDR / ENC / FB lines of datalog_corr.bytes_lines when the session ended normally)
     OPS … (as kind S)
     SCHED <string over R W>
     FAULTS <n n …|->                         numbers of the gated file-system operations that raise
@@ -329,10 +330,12 @@ def run_fine_case(case: Dict[str, Any]) -> Dict[str, Any]:
             ext = dsets[i].formatter_cls.ext
             ordered = [n for n in names if n == "f" + ext] + sorted(n for n in names if n != "f" + ext)
             flist = []
+            blist = []
             for n in ordered:
                 if obs["status"] != "done":
                     flist.append(["?"])
                     continue
+                blist.append(open(os.path.join(ddir, n), "rb").read())
                 dec = D.decode_file(d["fmt"], os.path.join(ddir, n))
                 ids: List[Any] = []
                 for hk, dk in dec:
@@ -344,6 +347,7 @@ def run_fine_case(case: Dict[str, Any]) -> Dict[str, Any]:
                         ids.append(keys.get((hk, dk), "?"))
                 flist.append(ids)
             obs["files"].append(flist)
+            obs.setdefault("fbytes", []).append(blist)
     finally:
         ctl.abort = ctl.at.get("R") != "finished"
         if ctl.abort:
@@ -388,7 +392,7 @@ def fine_block(cid: str, case: Dict[str, Any], obs: Dict[str, Any]) -> List[str]
     wp = E["dcm"].DataCollection.WRITE_PERIOD
     lines = [f"CASE {cid} G {int(wp) if float(wp).is_integer() else wp} {tail_len(case)} {alive_check()}"]
     for d in case["ds"]:
-        lines.append(f"DS {D.sel_tok(d['types'])} {D.eff_interval(d['interval'])} {KIND[d['fmt']]}")
+        lines.append(f"DS {D.sel_tok(d['types'])} {D.eff_interval(d['interval'])} {D.FMT_TOK[d['fmt']]}")
     toks = []
     for op in case["ops"]:
         toks.append(f"u:{op[1]}:{op[2]}:{op[3]}" if op[0] == "u" else f"{op[0]}:{op[1]}")
@@ -403,5 +407,6 @@ def fine_block(cid: str, case: Dict[str, Any], obs: Dict[str, Any]) -> List[str]
             lines.append(f"F {i} " + " ".join(str(x) for x in ids))
     for a in obs["audit"]:
         lines.append("AUDIT " + a.replace(" ", "_"))
+    lines += D.bytes_lines(case, obs)
     lines.append("END")
     return lines
